@@ -1732,8 +1732,8 @@ class SFACTable():
                 values = []
                 for x in ('element', 'a1', 'b1', 'a2', 'b2', 'a3', 'b3', 'a4', 'b4', 'c',
                           'fprime', 'fdprime', 'mu', 'r', 'wt'):
-                    values.append(sf[x])
-                sftext = self._extend_sfac_text(elements, sftext)
+                    values.append(str(sf[x]))
+                sftext = self._extend_sfac_text(values, sftext)
         if elements:
             sftext = self._extend_sfac_text(elements, sftext)
         return sftext[1:]
